@@ -252,6 +252,7 @@ class SimTransport(asyncio.Transport):
         self._high = 64 * 1024
         self._low = 16 * 1024
         self._conn_lost_count = 0
+        self._rst_scheduled = False
         self._sock = FakeSocket(family, net=net, sockname=sockname,
                                 peername=peername)
         self._extra = {'socket': self._sock, 'sockname': sockname,
@@ -311,6 +312,19 @@ class SimTransport(asyncio.Transport):
             self._conn_lost_count += 1
             return
 
+        if self.out.dead and not self.out.cut_pending:
+            # the peer has fully closed its socket (close()/abort(), not a
+            # half-close): as with TCP, data sent to it is answered by a
+            # reset, which is how a relay learns the other end is gone
+            if not self._rst_scheduled:
+                self._rst_scheduled = True
+                self._net.sim.stats['rst_on_write_to_closed'] += 1
+                self.inp.dead = False
+                self.inp.items.append([RST, self._loop.time() +
+                                       self.inp.latency, b''])
+
+            return
+
         data = bytes(data)
         self.out.written_total += len(data)
         sim = self._net.sim
@@ -340,8 +354,15 @@ class SimTransport(asyncio.Transport):
             return
 
         self._closing = True
+        unread = any(it[0] == DATA for it in self.inp.items)
 
-        if not self._eof_sent:
+        if unread and not self.inp.cut_pending:
+            # closing a socket with unread data in its receive queue makes
+            # the kernel send a reset rather than a FIN (Linux tcp_close)
+            self._net.sim.stats['rst_on_close_with_unread'] += 1
+            self._eof_sent = True
+            self._push_ctl(RST)
+        elif not self._eof_sent:
             self._eof_sent = True
             self._push_ctl(EOF)
 
